@@ -205,9 +205,11 @@ Timebase: %e
 		timestamp, starttime, firstrec,
 		w.PixelXPosition, w.PixelYPosition, w.PixelName, w.Timebase,
 	)
-	_, err := w.writer.WriteString(s)
+	if _, err := w.writer.WriteString(s); err != nil {
+		return err // the header was rejected, nothing of it is in the file
+	}
 	w.HeaderWritten = true
-	return err
+	return nil
 }
 
 // Flush flushes buffered data to disk
@@ -234,13 +236,14 @@ func (w *Writer) WriteRecord(framecount int64, timestamp int64, data []uint16) e
 		return fmt.Errorf("ljh incorrect number of samples, have %v, want %v", len(data), w.Samples)
 	}
 	subframeCount := framecount*int64(w.SubframeDivisions) + int64(w.SubframeOffset)
-	if _, err := w.writer.Write(getbytes.FromInt64(subframeCount)); err != nil {
-		return err
-	}
-	if _, err := w.writer.Write(getbytes.FromInt64(timestamp)); err != nil {
-		return err
-	}
-	if _, err := w.writer.Write(getbytes.FromSliceUint16(data)); err != nil {
+	// The record is assembled into one buffer and handed to the asynchronous writer in a single
+	// Write: that Write either accepts the whole record or (queue full) rejects it, so a record is
+	// never cut. The buffer is a fresh copy; the queue keeps a reference to it.
+	buf := make([]byte, 0, 16+2*len(data))
+	buf = append(buf, getbytes.FromInt64(subframeCount)...)
+	buf = append(buf, getbytes.FromInt64(timestamp)...)
+	buf = append(buf, getbytes.FromSliceUint16(data)...)
+	if _, err := w.writer.Write(buf); err != nil {
 		return err
 	}
 	w.RecordsWritten++
@@ -303,11 +306,8 @@ func (w *Writer3) WriteHeader() error {
 		panic("MarshallIndent error")
 	}
 
-	if _, err := w.writer.Write(s); err != nil {
-		return err
-	}
-
-	if _, err := w.writer.WriteString("\n"); err != nil {
+	// one Write for the whole header (see WriteRecord)
+	if _, err := w.writer.Write(append(s, '\n')); err != nil {
 		return err
 	}
 	w.HeaderWritten = true
@@ -319,19 +319,14 @@ func (w *Writer3) WriteHeader() error {
 // timestamp is posix timestamp in microseconds since epoch
 // data can be variable length
 func (w *Writer3) WriteRecord(firstRisingSample int32, framecount int64, timestamp int64, data []uint16) error {
-	if _, err := w.writer.Write(getbytes.FromInt32(int32(len(data)))); err != nil {
-		return err
-	}
-	if _, err := w.writer.Write(getbytes.FromInt32(firstRisingSample)); err != nil {
-		return err
-	}
-	if _, err := w.writer.Write(getbytes.FromInt64(framecount)); err != nil {
-		return err
-	}
-	if _, err := w.writer.Write(getbytes.FromInt64(timestamp)); err != nil {
-		return err
-	}
-	if _, err := w.writer.Write(getbytes.FromSliceUint16(data)); err != nil {
+	// one Write per record: accepted whole or rejected whole (see Writer.WriteRecord)
+	buf := make([]byte, 0, 24+2*len(data))
+	buf = append(buf, getbytes.FromInt32(int32(len(data)))...)
+	buf = append(buf, getbytes.FromInt32(firstRisingSample)...)
+	buf = append(buf, getbytes.FromInt64(framecount)...)
+	buf = append(buf, getbytes.FromInt64(timestamp)...)
+	buf = append(buf, getbytes.FromSliceUint16(data)...)
+	if _, err := w.writer.Write(buf); err != nil {
 		return err
 	}
 	w.RecordsWritten++
